@@ -1,0 +1,7 @@
+//go:build !verif
+
+package server
+
+func verifGate(kind, id string) {}
+
+func verifNote(kind string, kv ...interface{}) {}
